@@ -103,6 +103,8 @@ def run_verus_unit(u, scratch, tier, extra_flags=()):
     # default budget 3x Verus' own (10): a proof that is close to the limit must not flip to "undecided" because an
     # unrelated edit elsewhere in the unit perturbed the solver
     flags += ["--rlimit", str(u.get("rlimit") or 30)]
+    if "--multiple-errors" in extra_flags:
+        k = flags.index("--multiple-errors"); del flags[k:k + 2]
     flags += list(extra_flags)
     cmd = ["verus", src] + flags
     res["cmd"] = " ".join(cmd)
